@@ -113,11 +113,16 @@ def random_cases(rng, n):
             for k in range(rng.randint(0, 30)):
                 props.append(0 if rng.random() < 0.2
                              else max(dt0 * rng.uniform(0.3, 2.0), tf / 400.0))
-        yield dict(id='r%d' % i, exact=False, e=2, q=tf * 2.0 ** -28,
-                   tf=tf, dt0=dt0, pfreq=rng.choice([1, 2, 3, 7, 100]),
-                   outs=outs, ndamp=rng.choice([0, 0, 1, 2, 3, 5, 10]),
-                   adaptive=ad, props=props,
-                   maxsteps=rng.choice([BIG, BIG, BIG, 3, 10]))
+        c = dict(id='r%d' % i, exact=False, e=2, q=tf * 2.0 ** -28,
+                 tf=tf, dt0=dt0, pfreq=rng.choice([1, 2, 3, 7, 100]),
+                 outs=outs, ndamp=rng.choice([0, 0, 1, 2, 3, 5, 10]),
+                 adaptive=ad, props=props,
+                 maxsteps=rng.choice([BIG, BIG, BIG, 3, 10]))
+        if rng.random() < 0.3:
+            # max_steps stops the run, the limit is raised, solve() again
+            c['resume'] = rng.randint(1, 12)
+            c['maxsteps'] = rng.choice([BIG, c['resume'] + rng.randint(0, 9)])
+        yield c
 
 
 def long_cases(rng, n):
@@ -202,6 +207,7 @@ def judge(chk, cases_by_id, traces_by_id, verdicts, errs):
         v = r['v']
         tid = v['id']
         tr = traces_by_id[tid]
+        cases_by_id.setdefault(tid, cases_by_id.get(tid.split('+')[0]))
         if v['failed_masked']:
             chk.violation('clauses %s fail on the recorded log' % (
                 sorted(v['failed_masked']),),
@@ -245,9 +251,15 @@ def run():
         if chk.tier == 'quick':
             rng.shuffle(allx)
             cases = allx[:6000]
+            for c in cases[::5]:
+                if c['maxsteps'] > 2:
+                    c['resume'] = 1 + (int(c['id'][1:]) % 3)
             cases += list(random_cases(rng, 1500))
             cases += list(long_cases(rng, 48))
         else:
+            for c in allx[::3]:
+                if c['maxsteps'] > 2:
+                    c['resume'] = 1 + (int(c['id'][1:]) % 3)
             cases = allx + list(random_cases(rng, 20000)) + \
                 list(long_cases(rng, 600))
     traces = run_cases(chk, cases)
@@ -275,6 +287,8 @@ def run():
         exact_traces=sum(1 for t in good if t['exact']),
         quantised_traces=sum(1 for t in good if not t['exact']),
         mechanism_drift=ndrift,
+        continued_runs=sum(1 for t in good if t.get('c0') or
+                           t['id'].endswith('+r')),
         evaluations=len(traces),
         distinct_nontrivial=len(keys),
         rule='a case is one solver configuration (tf, dt, pfreq, output '
@@ -289,7 +303,12 @@ def run():
     ))
     chk.assumptions += [
         'fake integrator: step() records (t, dt); compute_time_step returns '
-        'the chosen proposals; no particles',
+        'the proposal chosen for the step about to be taken (the step size '
+        'in force is a function of the step, not of how often the solver '
+        'asked); no particles',
+        'continued runs: max_steps stops solve(), the limit is raised and '
+        'solve() is called again on the same object; each call is judged as '
+        'a run from (t0, c0)',
         'exact runs: 1 tick = 2^-4 so float arithmetic is exact and the '
         "solver's epsilon tests reduce to integer comparisons",
         'quantised runs: unit tf*2^-28, slack e=2 units in the clauses that '
